@@ -370,6 +370,30 @@ def payload_repr(ctx, r):
                     n += 1
                     c = q.show(i["c"]).replace(" ", "")
                     r.ob(".len()==1" in c, f"translate_bytecode.rs:{name}:Variant:Named:unwrapped-case", TB, i["l"], f"{name}: the bare-payload case of a named-field variant pattern must be chosen by the declared number of fields (`{c}`)", sample=f"{name}: bare payload iff `{c}`")
+    # a void payload is a placeholder slot: both lowerings must test the *payload's* type (the variant pattern itself has the enum's type, never void)
+    for name in ("translate_pat_comparison", "handle_pat_binding"):
+        f = q.find_fn(items, name, impl_ty="Translator")
+        if f is None:
+            continue
+        own = [b for p in f["params"] if not p.get("self") for b in q.pat_bindings(p["pat"])]
+        patparam = next((b for p in f["params"] if not p.get("self") and "Pat" in p.get("ty", "") for b in q.pat_bindings(p["pat"])), None)
+        for a in q.walk(f["body"]):
+            if a["k"] != "Arm" or not any(p["k"] == "PTupleStruct" and q.last_seg(p["p"]) in ("Positional", "Named") and "PatVariantData" in p["p"] for p in q.walk(a["pat"])):
+                continue
+            form = next(q.last_seg(p["p"]) for p in q.walk(a["pat"]) if p["k"] == "PTupleStruct" and "PatVariantData" in p["p"])
+            tests = []
+            for x in q.walk(a["body"]):
+                if x["k"] == "Local" and x.get("init") is not None:
+                    for y in q.walk(x["init"]):
+                        if y["k"] == "MethodCall" and y["m"] == "get_ty" and len(y["args"]) >= 2:
+                            v = q.pat_bindings(x["pat"])
+                            if v and any(z["k"] == "Binary" and z["op"] in ("!=", "==") and "Void" in q.show(z) and v[0] in q.idents_in(z) for z in q.walk(a["body"])):
+                                tests.append((v[0], q.show(y["args"][1]), x))
+            n += 1
+            bad = [t for t in tests if t[1].replace(" ", "").startswith(f"{patparam}.node()")]
+            r.ob(bool(tests) and not bad, f"translate_bytecode.rs:{name}:Variant:{form}:void-test-subject", TB, a["l"],
+                 f"{name}, {form} payload: the placeholder of a void payload must be recognised by the payload's own type; the tests here look at {[t[1] for t in tests] or 'nothing'} (`{patparam}` is the variant pattern: its type is the enum, never void), so a void payload's placeholder is left on the stack under the arm's value",
+                 sample=f"{name}: {form} payload voidness from {[t[1] for t in tests]}")
     bc = ctx.file_items("abra_core/src/bindings_common.rs")
     g = q.find_fn(bc, "name_of_variant_data_ty") if bc else None
     if g is None:
@@ -378,4 +402,86 @@ def payload_repr(ctx, r):
         n += 1
         ok = any(i["k"] == "If" and q.show(i["c"]).replace(" ", "").strip("()") in ("elems.len()==1",) for i in q.walk(g["body"]))
         r.ob(ok, "bindings_common.rs:name_of_variant_data_ty:unwrapped-case", "abra_core/src/bindings_common.rs", g["l"], "host bindings must use the bare payload type exactly for one declared field", sample="host bindings: bare payload iff elems.len() == 1")
-    r.count("payload representation decision sites", n, 4, TB)
+    r.count("payload representation decision sites", n, 8, TB)
+
+
+PLACEHOLDER_PRODUCERS = ("GetIndex", "DeconstructVariant", "ArrayPop")
+
+
+@rule("VOID-SLOT", ["C01", "C02"], "a value taken out of a slot that always holds something (array element, variant payload) is a placeholder when its type is void: the lowering that takes it out tests for void")
+def void_slot(ctx, r):
+    items = ctx.file_items(TB)
+    if items is None:
+        r.missing(TB)
+        return
+    n = 0
+    for f, _ in q.iter_items(items):
+        if f["k"] != "Fn" or f.get("body") is None:
+            continue
+        arms = [a for a in q.walk(f["body"]) if a["k"] == "Arm"]
+        for x in q.walk(f["body"]):
+            if not (x["k"] == "MethodCall" and x["m"] == "emit" and len(x["args"]) >= 2):
+                continue
+            head = q.show(x["args"][1]).split("(")[0].strip()
+            if not (head.startswith("Instr::") and head.split("::")[1] in PLACEHOLDER_PRODUCERS):
+                continue
+            prod = head.split("::")[1]
+            enclosing = [a for a in arms if any(y is x for y in q.walk(a["body"]))]
+            # the outermost arm of the principal match (the construct being lowered)
+            scope = enclosing[0] if enclosing else {"body": f["body"], "pat": {"k": "PWild"}, "l": f["l"]}
+            heads = [q.last_seg(h) for h in q.pat_heads(scope["pat"]) if "::" in h] or ["(function body)"]
+            n += 1
+            aware = any(y["k"] == "Path" and y["p"] == "SolvedType::Void" for y in q.walk(scope["body"]))
+            if not aware:
+                # through a local closure of the function that tests for void
+                closures = {b: l["init"] for l in q.walk(f["body"]) if l["k"] == "Local" and l.get("init") is not None and l["init"]["k"] == "Closure" for b in q.pat_bindings(l["pat"])}
+                for y in q.walk(scope["body"]):
+                    if y["k"] == "Call" and y["f"]["k"] == "Path" and y["f"]["p"] in closures and any(z["k"] == "Path" and z["p"] == "SolvedType::Void" for z in q.walk(closures[y["f"]["p"]])):
+                        aware = True
+            r.ob(aware, f"translate_bytecode.rs:{f['name']}:{'|'.join(heads)}:{prod}:not-void-aware", TB, x["l"],
+                 f"{f['name']} ({'|'.join(heads)}): `{prod}` always puts a value on the stack; when the static type of that value is void it is a placeholder, and a void expression or binding must leave nothing - no test for void appears in this lowering, so the placeholder stays under whatever is pushed next (wrong tuple fields, or an internal fault on the next loop iteration)",
+                 sample=f"{f['name']} {'|'.join(heads)}: {prod} with a void test")
+    r.count("placeholder-producing emissions", n, 8, TB)
+
+
+@rule("WITNESS-STACK", ["C12"], "a witness row grows at its end, so the fields of a constructor being re-assembled are the last `arity` entries: removal is from the same end")
+def witness_stack(ctx, r):
+    items = ctx.file_items(EXH)
+    if items is None:
+        r.missing(EXH)
+        return
+    n_rm = 0
+    n_ins = 0
+    for impl in q.find_impls(items, self_ty="WitnessMatrix"):
+        for f in impl["items"]:
+            if f["k"] != "Fn" or f.get("body") is None:
+                continue
+            for lp in q.walk(f["body"]):
+                if lp["k"] != "For" or "rows" not in q.show(lp["e"]):
+                    continue
+                rows = set(q.pat_bindings(lp["pat"]))
+                for x in q.walk(lp["body"]):
+                    if x["k"] != "MethodCall" or x["recv"]["k"] != "Path" or x["recv"]["p"] not in rows:
+                        continue
+                    if x["m"] in ("push", "extend", "append"):
+                        n_ins += 1
+                    elif x["m"] in ("insert", "push_front"):
+                        r.find(f"pat_exhaustiveness.rs:{f['name']}:{x['m']}:row-grows-elsewhere", EXH, x["l"], f"{f['name']}: a witness row is extended with `{x['m']}`; rows are stacks that grow at the end")
+                    elif x["m"] in ("drain", "remove", "split_off", "truncate", "pop", "swap_remove"):
+                        n_rm += 1
+                        ok = x["m"] in ("pop", "truncate", "split_off")
+                        if x["m"] == "drain" and x["args"]:
+                            a = x["args"][0]
+                            while a["k"] == "Paren":
+                                a = a["e"]
+                            # `(len - arity)..` : from a position counted from the end, to the end
+                            if a["k"] == "Range" and a.get("b") is None and a.get("a") is not None:
+                                fr = a["a"]
+                                while fr["k"] == "Paren":
+                                    fr = fr["e"]
+                                ok = fr["k"] == "Binary" and fr["op"] == "-" and ("len" in q.show(fr["a"]))
+                        r.ob(ok, f"pat_exhaustiveness.rs:{f['name']}:{x['m']}:removes-from-the-wrong-end", EXH, x["l"],
+                             f"{f['name']}: `{q.show(x)[:70]}` takes entries from the front of a witness row, but rows grow at the end (push_pattern / the re-assembled pattern are pushed): with more than one column pending, the fields of the constructor are the *last* entries, so the reported missing pattern is a rotation of the real one and may name a value an arm already matches",
+                             sample=f"{f['name']}: fields taken from the end of the row ({q.show(x['args'][0]) if x['args'] else x['m']})")
+    r.count("witness-row insertions", n_ins, 2, EXH)
+    r.count("witness-row removals", n_rm, 1, EXH)
